@@ -346,7 +346,7 @@ theorem C23_ast_memSpec (p : AProgram) (ab : ABlock) (hab : ab ∈ astBlocks p) 
   have names : ∀ x ∈ ab.items, ∃ rs ws cs, accessNames p x.2 = some (rs, ws, cs) := by
     intro x hx
     have := hok (x.1, answersOf p x.2) (List.mem_map.2 ⟨x, hx, rfl⟩)
-    simp only [answersOf, Option.isNone_eq_false_iff, Option.isSome_iff_exists] at this
+    simp only [answersOf, answersWith, Option.isNone_eq_false_iff, Option.isSome_iff_exists] at this
     obtain ⟨t, ht⟩ := this
     exact ⟨t.1, t.2.1, t.2.2, ht⟩
   have toMem : ∀ x ∈ ab.items, ∀ r k, AccessesA p x.2 r k → (regionId p r, k) ∈ memAccesses (answersOf p x.2) := by
